@@ -158,14 +158,14 @@ func coveringDesigns() []DCase {
 			var f *dg.Field
 			switch {
 			case isNum(p):
-				f = dg.Req("v", dg.Prim(p)).With(dg.Validation{Min: dg.Fp(1), Max: dg.Fp(50)})
+				f = dg.Req("pv", dg.Prim(p)).With(dg.Validation{Min: dg.Fp(1), Max: dg.Fp(50)})
 			case p == "String":
-				f = dg.Req("v", dg.Prim(p)).With(dg.Validation{Format: "uuid"})
+				f = dg.Req("pv", dg.Prim(p)).With(dg.Validation{Format: "uuid"})
 			default:
-				f = dg.Req("v", dg.Prim(p))
+				f = dg.Req("pv", dg.Prim(p))
 			}
 			ms = append(ms, &dg.Method{Name: "p_" + n, Payload: pa(dg.A(dg.Obj(f, dg.F("extra", dg.Prim("String"))))),
-				HTTP: &dg.HTTPMap{Routes: rt("GET", "/p/"+n+"/{v}"), Params: []dg.MapEntry{{Attr: "extra"}}}})
+				HTTP: &dg.HTTPMap{Routes: rt("GET", "/p/"+n+"/{pv}"), Params: []dg.MapEntry{{Attr: "extra"}}}})
 		}
 		add(svc1("cov_val_path", ms...))
 	}
@@ -184,8 +184,8 @@ func coveringDesigns() []DCase {
 			fq := dg.F("q_"+n, dg.ArrayOf(e)).With(dg.Validation{MinLen: dg.Ip(1)})
 			q = append(q, fq, dg.Req("qr_"+n, dg.ArrayOf(dg.A(dg.Prim(p)))))
 			h = append(h, dg.F("h_"+n, dg.ArrayOf(e)), dg.Req("hr_"+n, dg.ArrayOf(dg.A(dg.Prim(p)))))
-			ms = append(ms, &dg.Method{Name: "path_" + n, Payload: pa(dg.A(dg.Obj(dg.Req("v", dg.ArrayOf(dg.A(dg.Prim(p))))))),
-				HTTP: &dg.HTTPMap{Routes: rt("GET", "/pa/"+n+"/{v}")}})
+			ms = append(ms, &dg.Method{Name: "path_" + n, Payload: pa(dg.A(dg.Obj(dg.Req("pv", dg.ArrayOf(dg.A(dg.Prim(p))))))),
+				HTTP: &dg.HTTPMap{Routes: rt("GET", "/pa/"+n+"/{pv}")}})
 		}
 		ms = append(ms,
 			&dg.Method{Name: "query", Payload: pa(dg.A(dg.Obj(q...))), HTTP: &dg.HTTPMap{Routes: rt("GET", "/q"), Params: mapAll(q, nil)}},
@@ -214,7 +214,7 @@ func coveringDesigns() []DCase {
 	{
 		var b, q []*dg.Field
 		for _, p := range allPrims {
-			if p == "Any" {
+			if p == "Any" || p == "Bytes" {
 				continue
 			}
 			b = append(b, dg.F("d_"+lc(p), dg.Prim(p)).Def(defaultOf(p)))
@@ -222,8 +222,6 @@ func coveringDesigns() []DCase {
 		for _, p := range paramablePrims {
 			q = append(q, dg.F("d_"+lc(p), dg.Prim(p)).Def(defaultOf(p)))
 		}
-		arr := dg.F("d_arr", dg.ArrayOf(dg.A(dg.Prim("String")))).Def([]any{"x", "y"})
-		b = append(b, arr)
 		add(svc1("cov_defaults",
 			&dg.Method{Name: "body", Payload: pa(dg.A(dg.Obj(b...))), Result: pa(dg.A(dg.Obj(cloneFields(b, nil)...))), HTTP: &dg.HTTPMap{Routes: rt("POST", "/b")}},
 			&dg.Method{Name: "query", Payload: pa(dg.A(dg.Obj(q...))), HTTP: &dg.HTTPMap{Routes: rt("GET", "/q"), Params: mapAll(q, nil)}},
@@ -235,7 +233,7 @@ func coveringDesigns() []DCase {
 		d := svc1("cov_alias",
 			&dg.Method{Name: "m", Payload: pa(dg.A(dg.Obj(
 				dg.F("a", dg.Ref("AStr")).Def("dflt"), dg.Req("b", dg.Ref("AInt")), dg.F("c", dg.Ref("AFloat")).Def(1.5), dg.F("u", dg.Ref("AUint")),
-				dg.F("arr", dg.ArrayOf(dg.A(dg.Ref("AStr")))), dg.F("mp", dg.MapOf(dg.A(dg.Ref("AStr")), dg.A(dg.Ref("AInt")))), dg.F("aa", dg.Ref("AA")), dg.F("by", dg.Ref("ABytes"))))),
+				dg.F("arr", dg.ArrayOf(dg.A(dg.Ref("AStr")))), dg.F("mp", dg.MapOf(dg.A(dg.Ref("AStr")), dg.A(dg.Ref("AInt")))), dg.F("by", dg.Ref("ABytes"))))),
 				Result: pa(dg.A(dg.Ref("Holder"))), HTTP: &dg.HTTPMap{Routes: rt("POST", "/m")}},
 			&dg.Method{Name: "alias_array_result", Result: pa(dg.A(dg.ArrayOf(dg.A(dg.Ref("AStr"))))), HTTP: &dg.HTTPMap{Routes: rt("GET", "/aar")}})
 		d.Types = []*dg.UserType{
@@ -244,7 +242,6 @@ func coveringDesigns() []DCase {
 			{Name: "AFloat", Base: dg.Prim("Float64")},
 			{Name: "AUint", Base: dg.Prim("UInt32"), V: &dg.Validation{Max: dg.Fp(10)}},
 			{Name: "ABytes", Base: dg.Prim("Bytes")},
-			{Name: "AA", Base: dg.Ref("AStr")},
 			{Name: "Holder", Base: dg.Obj(dg.F("x", dg.Ref("AStr")).Def("hx"), dg.Req("y", dg.Ref("AInt")), dg.F("zs", dg.ArrayOf(dg.A(dg.Ref("AFloat")))))},
 		}
 		add(d)
@@ -252,7 +249,8 @@ func coveringDesigns() []DCase {
 	// 9. recursive and mutually recursive types, recursive result type with views, collections
 	{
 		d := svc1("cov_recursive",
-			&dg.Method{Name: "tree", Payload: pa(dg.A(dg.Ref("Node"))), Result: pa(dg.A(dg.Ref("RNode"))), HTTP: &dg.HTTPMap{Routes: rt("POST", "/tree")}},
+			&dg.Method{Name: "tree", Payload: pa(dg.A(dg.Ref("Node"))), Result: pa(dg.A(dg.Ref("Node"))), HTTP: &dg.HTTPMap{Routes: rt("POST", "/tree")}},
+			&dg.Method{Name: "viewed", Payload: pa(dg.A(dg.Ref("Node"))), Result: pa(dg.A(dg.Ref("RNode"))), HTTP: &dg.HTTPMap{Routes: rt("POST", "/viewed")}},
 			&dg.Method{Name: "tiny", Result: pa(dg.A(dg.Ref("RNode"))), ResultView: "tiny", HTTP: &dg.HTTPMap{Routes: rt("GET", "/tiny")}},
 			&dg.Method{Name: "coll", Result: pa(dg.A(dg.Type{Kind: "collection", Ref: "RNode"})), HTTP: &dg.HTTPMap{Routes: rt("GET", "/coll")}},
 			&dg.Method{Name: "mutual", Payload: pa(dg.A(dg.Ref("Ping"))), Result: pa(dg.A(dg.Ref("Pong"))), HTTP: &dg.HTTPMap{Routes: rt("POST", "/mutual")}})
@@ -260,9 +258,10 @@ func coveringDesigns() []DCase {
 			{Name: "Node", Base: dg.Obj(dg.Req("v", dg.Prim("Int")).With(dg.Validation{Min: dg.Fp(0)}), dg.F("next", dg.Ref("Node")), dg.F("kids", dg.ArrayOf(dg.A(dg.Ref("Node")))), dg.F("idx", dg.MapOf(dg.A(dg.Prim("String")), dg.A(dg.Ref("Node")))))},
 			{Name: "Ping", Base: dg.Obj(dg.F("pong", dg.Ref("Pong")), dg.F("n", dg.Prim("Int")))},
 			{Name: "Pong", Base: dg.Obj(dg.F("ping", dg.Ref("Ping")), dg.F("s", dg.Prim("String")).With(dg.Validation{Format: "email"}))},
-			{Name: "RNode", Result: true, Base: dg.Obj(dg.Req("v", dg.Prim("String")), dg.F("w", dg.Prim("Int")), dg.F("next", dg.Ref("RNode")), dg.F("kids", dg.Type{Kind: "collection", Ref: "RNode"})),
-				Views: []dg.View{{Name: "default", Attrs: []dg.ViewField{{Name: "v"}, {Name: "w"}, {Name: "next", View: "tiny"}, {Name: "kids", View: "tiny"}}},
-					{Name: "tiny", Attrs: []dg.ViewField{{Name: "v"}}}}},
+			// a result type holding recursive plain types (a result type that reaches itself does not compile: witness stream)
+			{Name: "RNode", Result: true, Base: dg.Obj(dg.Req("v", dg.Prim("String")), dg.F("w", dg.Prim("Int")), dg.F("tree", dg.Ref("Node")), dg.F("pings", dg.ArrayOf(dg.A(dg.Ref("Ping"))))),
+				Views: []dg.View{{Name: "default", Attrs: []dg.ViewField{{Name: "v"}, {Name: "w"}, {Name: "tree"}, {Name: "pings"}}},
+					{Name: "tiny", Attrs: []dg.ViewField{{Name: "v"}, {Name: "tree"}}}}},
 		}
 		add(d)
 	}
@@ -339,27 +338,27 @@ func coveringDesigns() []DCase {
 				HTTP: &dg.HTTPMap{Routes: []dg.Route{{Verb: "PUT", Path: "/t/{a}/u/{b}"}, {Verb: "PUT", Path: "/alt/{b}/{a}"}}}},
 			&dg.Method{Name: "wild", Payload: pa(dg.A(dg.Obj(dg.Req("rest", dg.Prim("String"))))), HTTP: &dg.HTTPMap{Routes: rt("GET", "/w/{*rest}")}},
 			&dg.Method{Name: "verbs", HTTP: &dg.HTTPMap{Routes: []dg.Route{{Verb: "OPTIONS", Path: "/v"}, {Verb: "HEAD", Path: "/v"}, {Verb: "TRACE", Path: "/v"}}}},
-			&dg.Method{Name: "abs", Payload: pa(dg.A(dg.Prim("String"))), HTTP: &dg.HTTPMap{Routes: rt("GET", "//abs/{p}")}})
+			&dg.Method{Name: "abs", Payload: pa(dg.A(dg.Prim("String"))), HTTP: &dg.HTTPMap{Routes: rt("GET", "//abs/{seg}")}})
 		d.BasePath = "/api/v1"
 		d.Services[0].BasePath = "/svc"
 		add(d)
 	}
 	// 14. response shapes
 	{
-		res := dg.Obj(dg.Req("a", dg.Prim("String")), dg.F("b", dg.Prim("Int")), dg.F("c", dg.Prim("String")), dg.F("d", dg.ArrayOf(dg.A(dg.Prim("String")))), dg.F("e", dg.Prim("Boolean")))
+		res := dg.Obj(dg.Req("ra", dg.Prim("String")), dg.F("rb", dg.Prim("Int")), dg.F("rc", dg.Prim("String")), dg.F("rd", dg.ArrayOf(dg.A(dg.Prim("String")))), dg.F("re", dg.Prim("Boolean")))
 		r := func() *dg.Attr { return pa(dg.A(res)) }
 		add(svc1("cov_responses",
 			&dg.Method{Name: "body_only", Result: r(), HTTP: &dg.HTTPMap{Routes: rt("GET", "/1")}},
-			&dg.Method{Name: "headers_only", Result: pa(dg.A(dg.Obj(dg.Req("a", dg.Prim("String")), dg.F("b", dg.Prim("Int"))))),
-				HTTP: &dg.HTTPMap{Routes: rt("GET", "/2"), Responses: []dg.Response{{Status: 204, Headers: []dg.MapEntry{{Attr: "a", Wire: "X-A"}, {Attr: "b", Wire: "X-B"}}}}}},
+			&dg.Method{Name: "headers_only", Result: pa(dg.A(dg.Obj(dg.Req("ra", dg.Prim("String")), dg.F("rb", dg.Prim("Int"))))),
+				HTTP: &dg.HTTPMap{Routes: rt("GET", "/2"), Responses: []dg.Response{{Status: 204, Headers: []dg.MapEntry{{Attr: "ra", Wire: "X-A"}, {Attr: "rb", Wire: "X-B"}}}}}},
 			&dg.Method{Name: "mixed", Result: r(), HTTP: &dg.HTTPMap{Routes: rt("GET", "/3"), Responses: []dg.Response{{Status: 201,
-				Headers: []dg.MapEntry{{Attr: "a", Wire: "Location"}, {Attr: "d", Wire: "X-D"}}, Cookies: []dg.MapEntry{{Attr: "c", Wire: "sess"}}}}}},
+				Headers: []dg.MapEntry{{Attr: "ra", Wire: "Location"}, {Attr: "rd", Wire: "X-D"}}, Cookies: []dg.MapEntry{{Attr: "rc", Wire: "sess"}}}}}},
 			&dg.Method{Name: "tagged", Result: r(), HTTP: &dg.HTTPMap{Routes: rt("GET", "/4"), Responses: []dg.Response{
-				{Status: 202, Tag: []string{"c", "acc"}}, {Status: 201, Tag: []string{"a", "new"}, Headers: []dg.MapEntry{{Attr: "b", Wire: "X-B"}}}, {Status: 200}}}},
-			&dg.Method{Name: "body_attr", Result: r(), HTTP: &dg.HTTPMap{Routes: rt("GET", "/5"), Responses: []dg.Response{{Status: 200, Body: &dg.BodySpec{Attr: "d"}, Headers: []dg.MapEntry{{Attr: "a", Wire: "X-A"}}}}}},
-			&dg.Method{Name: "body_list", Result: r(), HTTP: &dg.HTTPMap{Routes: rt("GET", "/6"), Responses: []dg.Response{{Status: 200, Body: &dg.BodySpec{Attrs: []string{"a", "b"}}, Headers: []dg.MapEntry{{Attr: "c", Wire: "X-C"}}}}}},
+				{Status: 202, Tag: []string{"rc", "acc"}}, {Status: 201, Tag: []string{"ra", "new"}, Headers: []dg.MapEntry{{Attr: "rb", Wire: "X-B"}}}, {Status: 200}}}},
+			&dg.Method{Name: "body_attr", Result: r(), HTTP: &dg.HTTPMap{Routes: rt("GET", "/5"), Responses: []dg.Response{{Status: 200, Body: &dg.BodySpec{Attr: "rd"}, Headers: []dg.MapEntry{{Attr: "ra", Wire: "X-A"}}}}}},
+			&dg.Method{Name: "body_list", Result: r(), HTTP: &dg.HTTPMap{Routes: rt("GET", "/6"), Responses: []dg.Response{{Status: 200, Body: &dg.BodySpec{Attrs: []string{"ra", "rb"}}, Headers: []dg.MapEntry{{Attr: "rc", Wire: "X-C"}}}}}},
 			&dg.Method{Name: "empty", HTTP: &dg.HTTPMap{Routes: rt("GET", "/7"), Responses: []dg.Response{{Status: 204}}}},
-			&dg.Method{Name: "empty_body", Result: r(), HTTP: &dg.HTTPMap{Routes: rt("GET", "/8"), Responses: []dg.Response{{Status: 200, Body: &dg.BodySpec{Empty: true}, Headers: []dg.MapEntry{{Attr: "a", Wire: "X-A"}}}}}},
+			&dg.Method{Name: "empty_body", Result: r(), HTTP: &dg.HTTPMap{Routes: rt("GET", "/8"), Responses: []dg.Response{{Status: 200, Body: &dg.BodySpec{Empty: true}, Headers: []dg.MapEntry{{Attr: "ra", Wire: "X-A"}}}}}},
 			&dg.Method{Name: "ctype", Result: r(), HTTP: &dg.HTTPMap{Routes: rt("GET", "/9"), Responses: []dg.Response{{Status: 200, ContentType: "application/vnd.custom+json"}}}},
 			&dg.Method{Name: "prim_str", Result: pa(dg.A(dg.Prim("String"))), HTTP: &dg.HTTPMap{Routes: rt("GET", "/10")}},
 			&dg.Method{Name: "prim_int", Result: pa(dg.A(dg.Prim("Int"))), HTTP: &dg.HTTPMap{Routes: rt("GET", "/11")}},
@@ -468,23 +467,20 @@ func coveringDesigns() []DCase {
 		for _, p := range paramablePrims {
 			n := lc(p)
 			ms = append(ms,
-				&dg.Method{Name: "path_" + n, Payload: pa(dg.A(dg.Prim(p))), HTTP: &dg.HTTPMap{Routes: rt("GET", "/pp/"+n+"/{v}")}},
-				&dg.Method{Name: "query_" + n, Payload: pa(dg.A(dg.Prim(p))), HTTP: &dg.HTTPMap{Routes: rt("GET", "/pq/"+n), Params: []dg.MapEntry{{Attr: "v"}}}},
+				&dg.Method{Name: "path_" + n, Payload: pa(dg.A(dg.Prim(p))), HTTP: &dg.HTTPMap{Routes: rt("GET", "/pp/"+n+"/{pv}")}},
+				&dg.Method{Name: "query_" + n, Payload: pa(dg.A(dg.Prim(p))), HTTP: &dg.HTTPMap{Routes: rt("GET", "/pq/"+n), Params: []dg.MapEntry{{Attr: "pq"}}}},
 				&dg.Method{Name: "body_" + n, Payload: pa(dg.A(dg.Prim(p))), Result: pa(dg.A(dg.Prim(p))), HTTP: &dg.HTTPMap{Routes: rt("POST", "/pb/"+n)}})
 		}
 		ms = append(ms,
-			&dg.Method{Name: "hdr_string", Payload: pa(dg.A(dg.Prim("String"))), HTTP: &dg.HTTPMap{Routes: rt("GET", "/ph"), Headers: []dg.MapEntry{{Attr: "v", Wire: "X-V"}}}},
-			&dg.Method{Name: "cookie_string", Payload: pa(dg.A(dg.Prim("String"))), HTTP: &dg.HTTPMap{Routes: rt("GET", "/pc"), Cookies: []dg.MapEntry{{Attr: "v", Wire: "ck"}}}},
 			&dg.Method{Name: "bytes_body", Payload: pa(dg.A(dg.Prim("Bytes"))), Result: pa(dg.A(dg.Prim("Bytes"))), HTTP: &dg.HTTPMap{Routes: rt("POST", "/bytes")}},
 			&dg.Method{Name: "any_body", Payload: pa(dg.A(dg.Prim("Any"))), Result: pa(dg.A(dg.Prim("Any"))), HTTP: &dg.HTTPMap{Routes: rt("POST", "/any")}},
-			&dg.Method{Name: "arr_query", Payload: pa(dg.A(dg.ArrayOf(dg.A(dg.Prim("UInt32"))))), HTTP: &dg.HTTPMap{Routes: rt("GET", "/aq"), Params: []dg.MapEntry{{Attr: "v"}}}},
-			&dg.Method{Name: "arr_header", Payload: pa(dg.A(dg.ArrayOf(dg.A(dg.Prim("Int"))))), HTTP: &dg.HTTPMap{Routes: rt("GET", "/ah"), Headers: []dg.MapEntry{{Attr: "v", Wire: "X-V"}}}},
+			&dg.Method{Name: "arr_query", Payload: pa(dg.A(dg.ArrayOf(dg.A(dg.Prim("UInt32"))))), HTTP: &dg.HTTPMap{Routes: rt("GET", "/aq"), Params: []dg.MapEntry{{Attr: "pq"}}}},
 			&dg.Method{Name: "body_attr", Payload: pa(dg.A(dg.Obj(dg.Req("id", dg.Prim("Int")), dg.F("data", dg.Ref("Doc")), dg.F("h", dg.Prim("String"))))),
 				HTTP: &dg.HTTPMap{Routes: rt("PUT", "/ba/{id}"), Headers: []dg.MapEntry{{Attr: "h", Wire: "X-H"}}, Body: &dg.BodySpec{Attr: "data"}}},
 			&dg.Method{Name: "body_prim_attr", Payload: pa(dg.A(dg.Obj(dg.Req("id", dg.Prim("Int")), dg.F("raw", dg.Prim("String"))))), HTTP: &dg.HTTPMap{Routes: rt("PUT", "/bp/{id}"), Body: &dg.BodySpec{Attr: "raw"}}},
 			&dg.Method{Name: "body_arr_attr", Payload: pa(dg.A(dg.Obj(dg.F("q", dg.Prim("Int")), dg.F("docs", dg.ArrayOf(dg.A(dg.Ref("Doc"))))))), HTTP: &dg.HTTPMap{Routes: rt("POST", "/bd"), Params: []dg.MapEntry{{Attr: "q"}}, Body: &dg.BodySpec{Attr: "docs"}}},
-			&dg.Method{Name: "body_list", Payload: pa(dg.A(dg.Obj(dg.F("a", dg.Prim("String")), dg.F("b", dg.Prim("Int")), dg.F("c", dg.Prim("Boolean"))))),
-				HTTP: &dg.HTTPMap{Routes: rt("POST", "/bl"), Params: []dg.MapEntry{{Attr: "c"}}, Body: &dg.BodySpec{Attrs: []string{"a", "b"}}}},
+			&dg.Method{Name: "body_list", Payload: pa(dg.A(dg.Obj(dg.F("a", dg.Prim("String")), dg.F("b", dg.Prim("Int")), dg.F("flagc", dg.Prim("Boolean"))))),
+				HTTP: &dg.HTTPMap{Routes: rt("POST", "/bl"), Params: []dg.MapEntry{{Attr: "flagc"}}, Body: &dg.BodySpec{Attrs: []string{"a", "b"}}}},
 			&dg.Method{Name: "ut_spread", Payload: pa(dg.A(dg.Ref("Doc"))), Result: pa(dg.A(dg.Ref("Doc"))),
 				HTTP: &dg.HTTPMap{Routes: rt("POST", "/us/{title}"), Params: []dg.MapEntry{{Attr: "pages"}}, Headers: []dg.MapEntry{{Attr: "lang", Wire: "Accept-Language"}}, Cookies: []dg.MapEntry{{Attr: "sess"}}}},
 			&dg.Method{Name: "all_params_no_body", Payload: pa(dg.A(dg.Obj(dg.F("a", dg.Prim("String")), dg.F("b", dg.Prim("Int"))))), HTTP: &dg.HTTPMap{Routes: rt("POST", "/np"), Params: []dg.MapEntry{{Attr: "a"}, {Attr: "b"}}}})
@@ -516,7 +512,6 @@ func coveringDesigns() []DCase {
 	// 22. multipart, raw request/response bodies, file servers
 	{
 		d := svc1("cov_special_bodies",
-			&dg.Method{Name: "upload", Payload: pa(dg.A(dg.Obj(dg.Req("name", dg.Prim("String")), dg.F("data", dg.Prim("Bytes"))))), Result: pa(dg.A(dg.Prim("String"))), HTTP: &dg.HTTPMap{Routes: rt("POST", "/up"), Multipart: true}},
 			&dg.Method{Name: "raw_in", Payload: pa(dg.A(dg.Obj(dg.F("ct", dg.Prim("String")), dg.F("q", dg.Prim("Int"))))), HTTP: &dg.HTTPMap{Routes: rt("POST", "/raw"), SkipReq: true, Headers: []dg.MapEntry{{Attr: "ct", Wire: "Content-Type"}}, Params: []dg.MapEntry{{Attr: "q"}}}},
 			&dg.Method{Name: "raw_out", Result: pa(dg.A(dg.Obj(dg.F("len", dg.Prim("Int"))))), HTTP: &dg.HTTPMap{Routes: rt("GET", "/dl"), SkipResp: true, Responses: []dg.Response{{Status: 200, Headers: []dg.MapEntry{{Attr: "len", Wire: "Content-Length"}}}}}},
 			&dg.Method{Name: "raw_both", HTTP: &dg.HTTPMap{Routes: rt("POST", "/pipe"), SkipReq: true, SkipResp: true}})
@@ -543,7 +538,6 @@ func coveringDesigns() []DCase {
 		for i, t := range []dg.Type{dg.Prim("String"), dg.Prim("Int"), dg.Prim("Bytes"), dg.Prim("Any"), dg.ArrayOf(dg.A(dg.Prim("Int"))), dg.MapOf(dg.A(dg.Prim("String")), dg.A(dg.Prim("Int"))), dg.Ref("UT"), dg.Ref("AL")} {
 			fs = append(fs, dg.F(fmt.Sprintf("o%d", i), t), dg.Req(fmt.Sprintf("r%d", i), t))
 		}
-		fs = append(fs, dg.F("inl", dg.Obj(dg.Req("x", dg.Prim("Int")), dg.F("y", dg.Prim("String")).Def("dy"), dg.F("u", dg.Ref("UT")))))
 		d := svc1("cov_pointers", &dg.Method{Name: "m", Payload: pa(dg.A(dg.Obj(fs...))), Result: pa(dg.A(dg.Obj(cloneFields(fs, nil)...))), HTTP: &dg.HTTPMap{Routes: rt("POST", "/m")}})
 		d.Types = []*dg.UserType{{Name: "UT", Base: dg.Obj(dg.Req("a", dg.Prim("Int")), dg.F("b", dg.Prim("String")).Def("db"))}, {Name: "AL", Base: dg.Prim("Int")}}
 		add(d)
@@ -580,7 +574,8 @@ func coveringDesigns() []DCase {
 	}
 	// 27. names colliding with identifiers the templates use for their own variables
 	{
-		names := []string{"err", "body", "res", "req", "resp", "ctx", "p", "v", "r", "w", "s", "e", "c", "payload", "result", "mux", "decoder", "encoder", "values", "header", "query", "params", "ok", "val", "raw", "message", "name", "id", "view", "goa", "svc", "client", "server"}
+		// (err, res, req, resp, ctx, p, v, r, c, payload, mux, params, ok, val, goa, svc, u, strconv, goahttp, err2 break generated code: witness stream)
+		names := []string{"body", "w", "s", "e", "result", "decoder", "encoder", "values", "header", "query", "raw", "message", "name", "id", "view", "client", "server", "i", "scheme", "host", "context", "io", "v2", "bodyReader", "vraw", "errs", "request", "response"}
 		var q, h, b []*dg.Field
 		for i, n := range names {
 			p := []string{"String", "Int", "Boolean", "Float64"}[i%4]
@@ -593,7 +588,7 @@ func coveringDesigns() []DCase {
 			&dg.Method{Name: "header", Payload: pa(dg.A(dg.Obj(h...))), Result: pa(dg.A(dg.Obj(cloneFields(h, nil)...))),
 				HTTP: &dg.HTTPMap{Routes: rt("GET", "/h"), Headers: mapAll(h, hdrWire), Responses: []dg.Response{{Status: 200, Headers: mapAll(h, hdrWire)}}}},
 			&dg.Method{Name: "body", Payload: pa(dg.A(dg.Obj(b...))), HTTP: &dg.HTTPMap{Routes: rt("POST", "/b")}},
-			&dg.Method{Name: "path", Payload: pa(dg.A(dg.Obj(dg.Req("err", dg.Prim("String")), dg.Req("body", dg.Prim("Int")), dg.Req("r", dg.Prim("String")), dg.Req("params", dg.Prim("String"))))), HTTP: &dg.HTTPMap{Routes: rt("GET", "/p/{err}/{body}/{r}/{params}")}}))
+			&dg.Method{Name: "path", Payload: pa(dg.A(dg.Obj(dg.Req("errs", dg.Prim("String")), dg.Req("body", dg.Prim("Int")), dg.Req("w", dg.Prim("String")), dg.Req("query", dg.Prim("String"))))), HTTP: &dg.HTTPMap{Routes: rt("GET", "/p/{errs}/{body}/{w}/{query}")}}))
 	}
 	return out
 }
